@@ -13,6 +13,7 @@ func init() {
 			{"R8.3", "per-file write order is request order", ruleWriteOrderPreserved},
 			{"R8.4", "offset and index come from the one slot mapping", ruleSlotMappingUsed},
 			{"R30.4", "slot → offset arithmetic is 64-bit", ruleOffsetArithmetic64},
+			{"R13.5", "the chunk buffer of the scanner holds whole records", ruleReadBufferWholeRecords},
 		},
 	})
 	register(&Property{
@@ -51,6 +52,7 @@ func init() {
 			{"R11.2", "variable results are always trimmed; limit after range", ruleTrimOrder},
 			{"R11.3", "year files are selected by calendar year (no fixed-length year)", ruleNoFixedLengthYear},
 			{"R11.4", "query bounds are never converted to nanosecond counts", ruleBoundsNotAsUnixNano},
+			{"R13.5", "the chunk buffer of the scanner holds whole records", ruleReadBufferWholeRecords},
 		},
 	})
 	register(&Property{
@@ -61,6 +63,7 @@ func init() {
 			{"R12.1", "limit after range; unlimited reverse scan refused", ruleTrimOrder},
 			{"R12.3", "the backward scan reports every byte it copied (count accumulates over chunks)", ruleBackwardScanAccounting},
 			{"R19.3", "SQL LIMIT reaches the scan only when the statement has no predicates", rulePushdownGuarded},
+			{"R13.5", "the chunk buffer of the scanner holds whole records", ruleReadBufferWholeRecords},
 		},
 	})
 }
